@@ -121,7 +121,8 @@ def run_tlc(module: str, cfg: str | None = None, *, workers: int | str = 1,
     """Run TLC on spec/<module>.tla with spec/<cfg>."""
     sc = scratch()
     meta = Path(tempfile.mkdtemp(prefix='tlc-', dir=sc))
-    cmd = ['java', '-XX:+UseParallelGC', f'-Xmx{heap}',
+    gc = '-XX:+UseSerialGC' if str(workers) == '1' else '-XX:+UseParallelGC'
+    cmd = ['java', gc, f'-Xmx{heap}',
            f'-Djava.io.tmpdir={meta}', '-Dfile.encoding=UTF-8',
            '-cp', TLA_CP, 'tlc2.TLC',
            '-workers', str(workers), '-metadir', str(meta / 'md'),
